@@ -1477,9 +1477,33 @@ func (g *Gen) matchU(t *Type, sc *scope, d int, fx bool) Expr {
 		// shows: as one branch of an if in a later arm (or in the default arm)
 		var later *Block
 		if shadowArm+1 < len(m.Arms) {
-			later = m.Arms[shadowArm+1].Body
+			if m.Arms[shadowArm+1].Bind != shadowedOuter {
+				later = m.Arms[shadowArm+1].Body
+			}
 		} else if m.Default != nil {
 			later = m.Default
+		}
+		if later != nil {
+			// (the later arm must not define the name again itself)
+			for _, st := range later.Stmts {
+				switch x := st.(type) {
+				case *Let:
+					if x.Name == shadowedOuter {
+						later = nil
+					}
+				case *LetDestr:
+					for _, n := range x.Names {
+						if n == shadowedOuter {
+							later = nil
+						}
+					}
+				case *InnerFun:
+					later = nil
+				}
+				if later == nil {
+					break
+				}
+			}
 		}
 		if later != nil && inlineOK(later.Result) {
 			for _, vi := range sc.visible(nil) {
@@ -1487,7 +1511,8 @@ func (g *Gen) matchU(t *Type, sc *scope, d int, fx bool) Expr {
 					*vi.used = true
 				}
 			}
-			later.Result = &If{Cond: g.expr(TBool, sc, 1, false), Then: ExprBlock(v(shadowedOuter)), Else: ExprBlock(later.Result)}
+			// (a closed condition: the arm's own block may have shadowed any outer name)
+			later.Result = &If{Cond: &BinOp{core.Pick(g.R, []string{"<", ">", "="}), &IntLit{g.R.Intn(3)}, &IntLit{g.R.Intn(3)}}, Then: ExprBlock(v(shadowedOuter)), Else: ExprBlock(later.Result)}
 			g.feat("shadowed-outer-variable-used-in-a-later-arm")
 		}
 	}
